@@ -51,8 +51,7 @@ Check stale_tail_is_redelivered.
 
 (* tie: the functions this property's model describes by hand (not by translation) still have the pinned text; an
    edit to one of them breaks this obligation and sends the check searching for a failing input *)
-From VL Require Import ShapeFacts.
 From VLG Require Import ShapeGen.
 Theorem C02_modelled_code_is_the_pinned_text : shapes_for_C02 = true.
-Proof. exact shapes_C02_ok. Qed.
+Proof. vm_compute. reflexivity. Qed.
 Print Assumptions C02_modelled_code_is_the_pinned_text.
